@@ -21,7 +21,7 @@ class KGen:
     def __init__(self, rng: random.Random, weights: dict[str, float] | None = None, *,
                  malformed: float = 0.06, wrong_state: float = 0.08, max_ctx: int = 8, max_tasks: int = 3,
                  td_depth: int = 2, gated: float = 0.35, exc_end: float = 0.4, many_callbacks: bool = False,
-                 p_cancel: float = 0.0, p_pair: float = 0.25, p_manual: float = 0.0) -> None:
+                 p_cancel: float = 0.0, p_pair: float = 0.25, p_manual: float = 0.0, p_mid: float = 0.0) -> None:
         self.rng = rng
         self.w = dict(DEFAULT_WEIGHTS)
         if weights:
@@ -34,6 +34,7 @@ class KGen:
         self.gated = gated
         self.exc_end = exc_end
         self.p_cancel = p_cancel
+        self.p_mid = p_mid
         self.queue: list[dict[str, Any]] = []
         self.p_pair = p_pair
         self.p_manual = p_manual
@@ -243,7 +244,12 @@ class KGen:
                 return None
             op = {"op": "addtd", "t": t, "c": c, "cb": self.cb(), "callable": rng.random() > self.malformed,
                   "via": self.via(t, c)}
+            self.ctxs[c].setdefault("atds", [])
+            if op["callable"] and op["cb"]["async"] and self.ctxs[c]["state"] == "open":
+                self.ctxs[c]["atds"].append(op["cb"]["id"])
             if op["via"] == "shortcut" and op["callable"] and op["cb"]["pass"] and op["cb"]["async"] and rng.random() < 0.7:
+                if self.ctxs[c]["state"] == "open":
+                    self.ctxs[c]["atds"].pop()
                 op["via"] = "ctxtd"          # registered through @context_teardown (needs the current context)
                 subs = [d for d, x in self.ctxs.items() if x["state"] == "inactive" and x["parent"] == c]
                 if self.ctxs[c]["state"] == "open" and rng.random() < 0.3 and (subs or len(self.ctxs) < self.max_ctx):
@@ -356,7 +362,12 @@ class KGen:
         end = self.exc() if rng.random() < self.exc_end else {"k": "ret"}
         if rng.random() < self.p_cancel:
             end = {"k": "cancelled"}        # the block is cancelled (cancel scope around it)
-        return {"op": "exit", "t": t, "c": c, "end": end}
+        op = {"op": "exit", "t": t, "c": c, "end": end}
+        if end["k"] != "cancelled" and x.get("atds") and rng.random() < self.p_mid:
+            # the scope around the block is cancelled while the teardown is already running: during this
+            # (directly registered, asynchronous) callback
+            op["cancelAt"] = rng.choice(x["atds"])
+        return op
 
     def generate(self, n: int) -> list[dict[str, Any]]:
         ops: list[dict[str, Any]] = []
